@@ -5,6 +5,8 @@ import BleveModel.Drv.C15
 import BleveModel.Drv.C10
 import BleveModel.Drv.C09
 import BleveModel.Drv.C02
+import BleveModel.Drv.C01
+import BleveModel.Drv.C13
 
 open Bleve.Proto
 
@@ -31,5 +33,7 @@ def main (args : List String) : IO UInt32 := do
   | ["c09"] => loop stdin stdout Bleve.Drv.C09.step; stdout.flush; return 0
   | ["c02"] => loop stdin stdout Bleve.Drv.C02.step; stdout.flush; return 0
   | ["c06"] => loop stdin stdout Bleve.Drv.C06.step; stdout.flush; return 0
+  | ["c01"] => loopS stdin stdout ({} : Bleve.IndexSpec.Spec) Bleve.Drv.C01.step; stdout.flush; return 0
+  | ["c13"] => loopS stdin stdout ({} : Bleve.IndexSpec.Spec) Bleve.Drv.C13.step; stdout.flush; return 0
   | ["c15"] => loopS stdin stdout ({} : Bleve.Drv.C15.S) Bleve.Drv.C15.step; stdout.flush; return 0
   | _ => IO.eprintln "usage: drv <driver>"; return 2
